@@ -30,6 +30,8 @@ def corpus():
     progs.append(("mix4", '0 A$="X":B$=STRING$(3,A$)+HEX$(10)+STR$(2)\n5 GOSUB 0\n7 PLAY B$:HDRAW A$:A=JOYSTK(0)\n'))
     progs.append(("mix5", '10 DIM A$,B$(2),C(1,2)\n20 A$=INKEY$:B$(1)=A$:C(0,1)=VAL(A$)\n30 IF C(0,1)>0 THEN 10 ELSE IF C(0,1)<0 THEN 20 ELSE 30\n'))
     progs.append(("ctl-chars", '10 PRINT "PAGE\x0cBREAK"\n20 A$="X\x1cY":B$="\x85\x0b\x1d\x1e"\n30 REM \x0c \x85 \x1c\n40 DATA A\x0bB,"C\x0cD"\n50 GOTO 10\n'))
+    progs.append(("big-line", '10 PRINT "A"\n20 GOTO 10\n40000 PRINT "B"\n'))
+    progs.append(("big-line-ref", '10 PRINT "A"\n20 GOTO 32699\n32699 PRINT "B"\n'))
     progs.append(("mix6", '10 X=1\n20 IF X=1 THEN X=2:GOTO 40\n30 X=3\n40 PRINT X\n'))
     return progs
 
